@@ -34,7 +34,7 @@ func baseClass(class string) string {
 
 func isMismatch(class string) bool {
 	b := baseClass(class)
-	return b == core.RegMismatch || b == core.MemMismatch
+	return b == core.RegMismatch || b == core.MemMismatch || b == "value-dependent-cycles"
 }
 
 var wmProps = []string{"C01", "C03", "C04", "C05", "C06", "C07", "C09", "C10", "C12"}
@@ -75,6 +75,11 @@ var triggers = []trigger{
 		id: "KF-W3", props: wmProps,
 		match: func(c *core.Case, f *features, class string, v *core.Verdict) bool {
 			vv := c.Cfg.V
+			if vv >= mach.MVP61 && c.Cfg.Parallelism() >= 2 && f.takenBranches >= 1 && f.shadowHasTrap && baseClass(class) == core.Budget {
+				// a branch or jump inside the shadow overwrites the single pending
+				// expectation of the branch unit: the older branch never redirects
+				return true
+			}
 			if vv < mach.MVP61 || f.takenBranches == 0 || !isMismatch(class) || !f.tShadow.explains(v) {
 				return false
 			}
